@@ -244,8 +244,10 @@ def build_tu(proj, job):
         callee_contracts.append(cc)
         replace_cnames.append(cfi.cname)
     parts.append(emit_ghost_of(contract))
-    # inlined helper bodies (extracted by the same rules)
+    # inlined helper bodies (extracted by the same rules); prototypes first, so that their order does not matter
     metas = []
+    for cfi, opt in inline_infos:
+        parts.append('static inline ' + cfi.proto() + ';')
     for cfi, opt in inline_infos:
         ex = T.extract_function(proj, cfi, functable, real, opt.get('srcrel'), opt.get('select'), report,
                                 contract=None, static_inline=True, own_cls=cls)
@@ -311,6 +313,24 @@ def build_lemma_tu(proj, job, report):
     return dict(text='\n'.join(parts) + '\n', entry='h_' + cname, cname=None, replace=replace_cnames, contract=contract,
                 report=report, metas=[dict(function='(lemma over the contracts of %s)' % ', '.join(replace_cnames), role='lemma')],
                 fi=None, has_loops=False, loop_lines=[])
+
+
+_SHIM_HASH = None
+
+
+def shim_hash():
+    global _SHIM_HASH
+    if _SHIM_HASH is None:
+        h = hashlib.sha256()
+        for fn in sorted(os.listdir(os.path.join(VERIF, 'shim'))):
+            h.update(open(os.path.join(VERIF, 'shim', fn), 'rb').read())
+        for t in ('cbmc', 'goto-instrument'):
+            try:
+                h.update(subprocess.run([t, '--version'], stdout=subprocess.PIPE).stdout)
+            except Exception:
+                pass
+        _SHIM_HASH = h.hexdigest()
+    return _SHIM_HASH
 
 
 def _limit():
@@ -384,14 +404,36 @@ def run_job(proj, job, workdir, tier='quick', seed=0, only_property=None, noslic
         f.write(b['text'])
     shutil.copy(tu_path, os.path.join(OUT, 'tu', sub + '.c'))
     res['tu_sha256'] = hashlib.sha256(b['text'].encode()).hexdigest()
+    # Result cache: the verdict is a deterministic function of the generated TU (which is re-extracted from /repo's working
+    # tree on every run) and of the tool command lines; a later check that needs the same function reuses it.
+    cache_key = hashlib.sha256(('\n'.join([b['text'], repr(job.defines), repr(job.unwind), repr(getattr(job, 'unwindset', None)), repr(job.cbmc_flags),
+                                             repr(getattr(job, 'sat', None)), repr(job.object_bits), repr(only_property), repr(noslice), repr(b['replace']),
+                                             tier if job.timeout is None else str(job.timeout), shim_hash(), 'v4'])).encode()).hexdigest()
+    cache_path = os.path.join(OUT, 'cache', cache_key + '.json')
+    if os.environ.get('VERIF_NOCACHE') != '1' and os.path.exists(cache_path):
+        try:
+            with open(cache_path) as fc:
+                cached = json.load(fc)
+            for k in ('status', 'obligations', 'failures', 'solver_s', 'diag', 'backend', 'n_obligations', 'n_discharged', 'canary_ok', 'checker_cmd',
+                      'instrument_cmd', 'warnings', 'excluded_integer_conversion_checks'):
+                if k in cached:
+                    res[k] = cached[k]
+            res['cached'] = True
+            res['wall_s'] = round(time.time() - t0, 2)
+            return res
+        except Exception:
+            pass
     a_gb = os.path.join(workdir, sub + '.a.gb')
     b_gb = os.path.join(workdir, sub + '.b.gb')
     timeout = job.timeout or (120 if tier == 'quick' else 1800)
-    cmd = ['goto-cc', '--function', b['entry'], '-I', os.path.join(VERIF, 'shim'), '-I', os.path.join(VERIF, 'contracts')]
+    cmd = ['goto-cc', '-Wall', '-Werror', '--function', b['entry'], '-I', os.path.join(VERIF, 'shim'), '-I', os.path.join(VERIF, 'contracts')]
     cmd += ['-D' + d for d in job.defines] + job.extra_cflags + [tu_path, '-o', a_gb]
     rc, out, err, _ = run_cmd(cmd, 120)
     if rc != 0:
         res['diag'] = 'goto-cc failed (the extraction rules do not cover this text, or contract syntax):\n' + (out + err)[-3000:]
+        return res
+    if re.search(r'implicit function declaration|function .* is not declared', out + err):
+        res['diag'] = 'goto-cc: a function is used without a declaration (it would silently return int):\n' + (out + err)[-2000:]
         return res
     if b['has_loops']:
         # DFCC gives spurious frame failures for an uncontracted loop that follows a contracted one in the same
@@ -545,6 +587,14 @@ def run_job(proj, job, workdir, tier='quick', seed=0, only_property=None, noslic
     else:
         res['status'] = 'ok'
     res['wall_s'] = round(time.time() - t0, 2)
+    if res['status'] in ('ok', 'fail'):
+        try:
+            os.makedirs(os.path.join(OUT, 'cache'), exist_ok=True)
+            with open(cache_path, 'w') as fc:
+                json.dump({k: res[k] for k in ('status', 'obligations', 'failures', 'solver_s', 'diag', 'backend', 'n_obligations', 'n_discharged', 'canary_ok',
+                                                'checker_cmd', 'instrument_cmd', 'warnings', 'excluded_integer_conversion_checks') if k in res}, fc)
+        except Exception:
+            pass
     return res
 
 
